@@ -86,6 +86,7 @@ impl AddressUtxoSetLog {
 //@extract file=interface/src/lib.rs item="enum GetUtxosError" rename_type=GetUtxosErrorFull
 //@ rewrite R2? "#\[derive\(([^\]]*)\)\]" => ""
 //@ rewrite R3 "enum GetUtxosError" => "enum GetUtxosErrorFull"
+//@ rewrite R3 "tip_block_hash: BlockHash" => "tip_block_hash: Vec<u8>"
 //@end
 
 // ---- C04: the cut, written from the statement -----------------------------------------------------------------------
@@ -558,4 +559,53 @@ impl Page {
 //@ tail
 //@|     (utxos, next_page)
 //@| }
+//@end
+
+// ---- C06: get_utxos_internal (get_utxos.rs:122): which chain and which offset a page request is answered from ------------
+// [trusted:stand-in] the response / statistics types (opaque), Page::from_bytes as a function of the bytes (its totality and its
+// inverse are the Kani harnesses c06_page_* and the length-guard slice above), get_utxos_from_chain as an opaque function of
+// its arguments (its pieces are the slices above)
+struct GetUtxosResponseFull { payload: u64 }
+struct Stats { payload: u64 }
+uninterp spec fn page_decode_spec(bytes: Seq<u8>) -> Option<Page>;
+impl Page {
+    #[verifier::external_body]
+    fn from_bytes(bytes: Vec<u8>) -> (r: Result<Page, String>)
+        ensures r.is_ok() <==> page_decode_spec(bytes@).is_some(), r matches Ok(p) ==> page_decode_spec(bytes@) == Some(p),
+    { unimplemented!() }
+}
+uninterp spec fn from_chain_spec(state: &State, address: &str, min_confirmations: u32, chain: Seq<CachedBlock>, offset: Option<Utxo>, utxo_limit: usize)
+    -> Result<(GetUtxosResponseFull, Stats), GetUtxosErrorFull>;
+#[verifier::external_body]
+fn get_utxos_from_chain(state: &State, address: &str, min_confirmations: u32, chain: BlockChain<CachedBlock>, offset: Option<Utxo>, utxo_limit: usize)
+    -> (r: Result<(GetUtxosResponseFull, Stats), GetUtxosErrorFull>)
+    ensures r == from_chain_spec(state, address, min_confirmations, chain@, offset, utxo_limit),
+{ unimplemented!() }
+//@extract file=canister/src/api/get_utxos.rs item="fn get_utxos_internal" props=C06,C01,C02
+//@ ret r
+//@ rewrite R3 "GetUtxosError" => "GetUtxosErrorFull"
+//@ sigrewrite R3 "GetUtxosError" => "GetUtxosErrorFull"
+//@ sigrewrite R3 "GetUtxosResponse" => "GetUtxosResponseFull"
+//@ spec
+//@| requires state.unstable_blocks.tree.wf(),
+//@| ensures
+//@|     match page {
+//@|         // first page: the served (best) chain, no offset
+//@|         None => r == from_chain_spec(state, address, min_confirmations, state.unstable_blocks.tree.best_path(), None, utxo_limit),
+//@|         Some(bytes) => match page_decode_spec(bytes@) {
+//@|             // any byte string that is not a page token: an error, never a trap
+//@|             None => r.is_err(),
+//@|             Some(p) =>
+//@|                 // the tip the token names is no longer in the tree: an explicit error
+//@|                 if !state.unstable_blocks.tree.contains(p.tip_block_hash) {
+//@|                     (r matches Err(GetUtxosErrorFull::UnknownTipBlockHash { tip_block_hash }) && tip_block_hash@ == p.tip_block_hash.bytes_spec())
+//@|                 } else {
+//@|                     // otherwise the answer is computed on the branch from the anchor to THAT tip (whatever has been added to the
+//@|                     // tree since), resuming at the element the token names
+//@|                     r == from_chain_spec(state, address, min_confirmations,
+//@|                         state.unstable_blocks.tree.path_blocks(state.unstable_blocks.tree.idx_path_to(p.tip_block_hash)),
+//@|                         Some(Utxo { height: p.height, outpoint: p.outpoint, value: 0 }), utxo_limit)
+//@|                 },
+//@|         },
+//@|     },
 //@end
